@@ -604,6 +604,11 @@ def _is_cycle_dev(d):
     return isinstance(d, PartHandler) and not isinstance(d, (Source, Sink, Buffer, PartBatcher))
 
 
+def _is_slot_dev(d):
+    '''Single-slot devices that rank by idle time when several of them can take a part: handlers, processors and sinks.'''
+    return _is_cycle_dev(d) or isinstance(d, Sink)
+
+
 @monitor('cycle')
 class CycleMon(Monitor):
     '''C06: every accepted part is released from processing after exactly the cycle
@@ -1050,15 +1055,16 @@ class RouteMon(Monitor):
 
     def start(self, w):
         for d in w.dev.values():
-            if _is_cycle_dev(d):
+            if _is_slot_dev(d):
                 self.idle_since[d.name] = 0
+        self.sink_full = {}
         self.check_histories(w)
 
     def created(self, w, d, t0):
         self.kinds[d['name']] = d['kind']
         if d['kind'] not in ('maintainer', 'group', 'obj', 'scheduler', 'psensor', 'osensor', 'cms'):
             self.up[d['name']] = list(d.get('up', []))
-            if d['kind'] in ('handler', 'processor'):
+            if d['kind'] in ('handler', 'processor', 'sink'):
                 self.idle_since[d['name']] = t0
 
     @staticmethod
@@ -1077,7 +1083,7 @@ class RouteMon(Monitor):
         # which single-slot devices could take a part right now, and since when they are idle
         self.pre_idle = {}
         for d in w.dev.values():
-            if _is_cycle_dev(d) and d._part is None and d._output is None and d.is_operational() \
+            if _is_slot_dev(d) and d._part is None and d._output is None and d.is_operational() \
                     and not d.block_input and self._resources_free(w, d):
                 self.pre_idle[d.name] = self.idle_since.get(d.name, 0)
 
@@ -1183,7 +1189,8 @@ class RouteMon(Monitor):
                     from .line import DECIDERS
                     dec = self.spec_of(w, rname).get('decider', 'all')
                     q = g[9]
-                    ok = {'q_ge': q >= 0.5, 'q_lt': q < 0.5, 'all': True, 'q_ge_none': q >= 0.5, 'q_lt_none': q < 0.5}[dec]
+                    # (deciders that go by the route a part has taken -- 'again' / 'done' -- are not re-derived here)
+                    ok = {'q_ge': q >= 0.5, 'q_lt': q < 0.5, 'all': True, 'q_ge_none': q >= 0.5, 'q_lt_none': q < 0.5}.get(dec, True)
                     if not ok:
                         raise Violation('gate', f'part {pid} (quality {q}) passed gate {rname} ({dec})')
                     w.facts.append('gate_pass')
@@ -1205,7 +1212,7 @@ class RouteMon(Monitor):
                 eff = exit_entry         # a part leaving a group is offered to the devices behind the path it entered by
             via_passthrough = len(chain) >= 2 and eff is giver and \
                 all(self.kinds.get(g[3]) in ('gate', 'flow') for g in chain[:-1])
-            if self.idle_rule and _is_cycle_dev(fdev) and (len(chain) == 1 or eff is not giver or via_passthrough):
+            if self.idle_rule and _is_slot_dev(fdev) and (len(chain) == 1 or eff is not giver or via_passthrough):
                 # candidates: single-slot devices that could take the part now, directly behind the giver or behind
                 # unblocked pass-through devices (a pass-through device ranks by the longest-idle device behind it)
                 cands = [c for c in self.idle_candidates(w, eff, rec[9]) if c not in taken]
@@ -1219,6 +1226,17 @@ class RouteMon(Monitor):
             taken.add(final)
             if giver in self.idle_since and actor._part is None and actor._output is None:
                 self.idle_since[giver] = now
+        # a sink is idle again when its (possibly zero-length) cycle is over: empty now, and either it held a part before
+        # this event or it received one within it
+        sink_full = getattr(self, 'sink_full', None)
+        if sink_full is None:
+            sink_full = self.sink_full = {}
+        for nm, d in w.dev.items():
+            if isinstance(d, Sink) and nm in self.idle_since:
+                empty = d._part is None and d._output is None
+                if empty and (sink_full.get(nm) or nm in taken):
+                    self.idle_since[nm] = now
+                sink_full[nm] = not empty
         # refused top-level attempts: note for vacuity
         if any(g is not None and not g[6] for g in gives):
             w.facts.append('refusal')
@@ -1245,7 +1263,7 @@ class RouteMon(Monitor):
                     dec = self.spec_of(w, c).get('decider', 'all')
                     ok = {'q_ge': quality is not None and quality >= 0.5, 'q_lt': quality is not None and quality < 0.5,
                           'all': True, 'q_ge_none': quality is not None and quality >= 0.5,
-                          'q_lt_none': quality is not None and quality < 0.5}[dec]
+                          'q_lt_none': quality is not None and quality < 0.5}.get(dec, True)
                     if not ok:
                         continue
                 out.extend(self.idle_candidates(w, c, quality, depth + 1))
